@@ -1,0 +1,37 @@
+//! Verification hooks (compiled only with `--cfg yui_verif`).
+//!
+//! A harness may install a process-global callback that is invoked at the schedule points of the
+//! parallel pivot search and when a reduction step has chosen its pivots.  Without an installed
+//! callback every hook is a no-op; without the cfg flag nothing of this module exists.
+
+use std::sync::{Arc, RwLock};
+
+/// (kind, row, col, log_len): `kind` names the schedule point.
+pub type PointCallback = Arc<dyn Fn(&'static str, usize, Option<usize>, usize) + Send + Sync>;
+/// the pivots a caller is about to use, as (row, col) pairs.
+pub type PivotsCallback = Arc<dyn Fn(&[(usize, usize)]) + Send + Sync>;
+
+static POINT_CB: RwLock<Option<PointCallback>> = RwLock::new(None);
+static PIVOTS_CB: RwLock<Option<PivotsCallback>> = RwLock::new(None);
+
+pub fn install_point_callback(cb: Option<PointCallback>) {
+    *POINT_CB.write().unwrap() = cb;
+}
+
+pub fn install_pivots_callback(cb: Option<PivotsCallback>) {
+    *PIVOTS_CB.write().unwrap() = cb;
+}
+
+pub fn point(kind: &'static str, row: usize, col: Option<usize>, log_len: usize) {
+    let cb = POINT_CB.read().unwrap().clone();
+    if let Some(cb) = cb {
+        cb(kind, row, col, log_len)
+    }
+}
+
+pub fn observe_pivots(pivs: &[(usize, usize)]) {
+    let cb = PIVOTS_CB.read().unwrap().clone();
+    if let Some(cb) = cb {
+        cb(pivs)
+    }
+}
